@@ -12,6 +12,7 @@ KINDS = {
     "flat_tag": {"t": "flat_map", "fn": "tag"}, "flat_later": {"t": "flat_map", "fn": "later"},
     "flat_nonfuture": {"t": "flat_map", "fn": "nonfuture"}, "flat_none": {"t": "flat_map"},
     "flat_efn_fail": {"t": "flat_map", "efn": "fail_future"},
+    "flat_efn_nonfuture": {"t": "flat_map", "efn": "nonfuture"},
     "retry2": {"t": "retry", "max": 2, "sleep": 100}, "retry3": {"t": "retry", "max": 3, "sleep": 100},
     "poll_first": {"t": "poll", "mode": "first"}, "poll_second": {"t": "poll", "mode": "second"},
     "throttle1": {"t": "throttle", "count": 1}, "throttle_none": {"t": "throttle", "count": None},
